@@ -263,6 +263,7 @@ type c07Sink struct {
 	kase  func(fn string, arg, res wire.Val)
 	count func(key string)
 	nontr func(key string)
+	k2    int
 }
 
 func (s *c07Sink) cnt(k string) {
@@ -725,6 +726,15 @@ func c07RoundTrip(in c07In, s *c07Sink, text string, lines []c07Line, known []c0
 	} else if ctrl {
 		obs = "round trip unexpectedly succeeded with a control character in a name"
 	}
+	if shape == "K2" {
+		// the known finding is frequent; record a few instances only, so that the
+		// framework's cap on recorded failures cannot hide other failures
+		s.k2++
+		if s.k2 > 3 {
+			s.cnt("roundtrip:K2-not-recorded")
+			return
+		}
+	}
 	s.check("sign-open-roundtrip", obs == "", shape, in, obs)
 }
 
@@ -935,10 +945,19 @@ func c07GenScenario(r *rand.Rand) c07In {
 	}
 	all := append(append([]c07Key(nil), in.Signers...), oldKeys...)
 	nk := r.Intn(5)
+	picked := map[int]bool{}
 	for i := 0; i < nk; i++ {
 		switch k := r.Intn(20); {
 		case k < 11 && len(all) > 0:
-			in.Known = append(in.Known, all[r.Intn(len(all))])
+			j := r.Intn(len(all))
+			if picked[j] {
+				j = r.Intn(len(all))
+			}
+			if picked[j] {
+				continue
+			}
+			picked[j] = true
+			in.Known = append(in.Known, all[j])
 		case k < 13 && len(all) > 0: // same name and hash, different key: bad signature
 			kk := all[r.Intn(len(all))]
 			if kk.Kind == "toy" {
@@ -1031,7 +1050,7 @@ func c07GenVKey(r *rand.Rand) string {
 	r.Read(key[1:])
 	key[0] = 1
 	switch r.Intn(12) {
-	case 0:
+	case 0, 3:
 		key[0] = byte(r.Intn(4))
 	case 1:
 		key = key[:r.Intn(33)]
@@ -1040,9 +1059,11 @@ func c07GenVKey(r *rand.Rand) string {
 	}
 	hash := fmt.Sprintf("%08x", gen.NoteKeyHash(name, key))
 	b64 := base64.StdEncoding.EncodeToString(key)
-	switch r.Intn(16) {
+	switch r.Intn(32) {
 	case 0:
 		hash = strings.ToUpper(hash)
+	case 12, 13, 14:
+		hash = fmt.Sprintf("%08x", gen.NoteKeyHash(name, key)^(1<<uint(r.Intn(32))))
 	case 1:
 		hash = hash[1:]
 	case 2:
@@ -1058,7 +1079,9 @@ func c07GenVKey(r *rand.Rand) string {
 	case 7:
 		b64 = strings.TrimRight(b64, "=") + "*"
 	case 8:
-		b64 = b64[:5] + "\n" + b64[5:]
+		if len(b64) > 5 {
+			b64 = b64[:5] + "\n" + b64[5:]
+		}
 	case 9:
 		b64 = ""
 	case 10:
@@ -1096,7 +1119,7 @@ func runC07(c *hx.Ctx) {
 	}
 
 	// verifier / signer keys
-	for i := 0; i < c.N(300); i++ {
+	for i := 0; i < c.N(1200); i++ {
 		c07VKey(c07In{Op: "vkey", Text: c07Hex(c07GenVKey(r))}, sink)
 	}
 	for i := 0; i < c.N(60); i++ {
@@ -1156,10 +1179,10 @@ func runC07(c *hx.Ctx) {
 	mutBudget := c.N(60000)
 	mutCases := 0
 	var lastMsg []byte
-	for i := 0; i < c.N(5000); i++ {
+	for i := 0; i < c.N(8000); i++ {
 		in := c07GenScenario(r)
 		var muts []c07Mut
-		if mutBudget > 0 && r.Intn(40) == 0 {
+		if mutBudget > 0 && r.Intn(30) == 0 {
 			// upper bound on the message length is not known yet: positions up to 300
 			for p := 0; p <= 300; p++ {
 				for k := 0; k < 5; k++ {
@@ -1168,6 +1191,7 @@ func runC07(c *hx.Ctx) {
 			}
 		}
 		s2 := *sink
+		s2.k2 = sink.k2
 		s2.kase = func(fn string, arg, res wire.Val) {
 			if fn == "OpenList" && res.L[0].S == "ok" && len(arg.L[0].S) < 200 {
 				lastMsg = []byte(arg.L[0].S)
@@ -1181,6 +1205,7 @@ func runC07(c *hx.Ctx) {
 			c.Count(k)
 		}
 		c07Scenario(in, &s2, muts, func() bool { mutCases++; return mutCases%3 == 0 })
+		sink.k2 = s2.k2
 		if i < 6 {
 			c.Sample(fmt.Sprintf("scenario text=%q signers=%d known=%d old=%d", c07Unhex(in.Text), len(in.Signers), len(in.Known), len(in.Old)))
 		}
